@@ -190,8 +190,8 @@ def classify(g, res):
         low = msg.lower()
         if 'rlimit' in low or 'resource limit' in low or 'timed out' in low or 'solver' in low and 'crash' in low:
             f.kind = 'rlimit'
-        elif not is_verification_message(msg):
-            f.kind = 'frontend'
+        elif d.get('code') is not None or not is_verification_message(msg):
+            f.kind = 'frontend'   # rustc diagnostics carry an error code, Verus proof failures do not
         fails.append(f)
     return fails
 
@@ -217,8 +217,10 @@ class UnitResult:
     pass
 
 
-def run_unit(unit_dir, tier, seed, scratch, variants=True):
+def _run_unit_once(unit_dir, tier, seed, scratch, auto_stubs):
     u = UnitResult()
+    u.main_res = None
+    u.auto_stubbed = []
     u.name = os.path.basename(unit_dir)
     u.status = 'ok'
     u.reason = ''
@@ -239,8 +241,9 @@ def run_unit(unit_dir, tier, seed, scratch, variants=True):
     t0 = time.time()
     rlimit = 40 if tier == 'quick' else 120
     try:
-        g = gen.generate(unit_dir)
+        g = gen.generate(unit_dir, auto_stubs=auto_stubs)
         u.gen = g
+        u.auto_stubbed = list(g.auto_stubbed)
         vnames = [v for v in (g.opts.get('variants', '') or '').split(',') if v]
     except ExtractError as e:
         u.status, u.reason = 'undecided', 'extraction: %s' % e
@@ -274,7 +277,7 @@ def run_unit(unit_dir, tier, seed, scratch, variants=True):
         gms = []
         try:
             for gi, grp in enumerate(mustfail_groups(g)):
-                gm = gen.generate(unit_dir, mustfail=set(grp))
+                gm = gen.generate(unit_dir, mustfail=set(grp), auto_stubs=auto_stubs)
                 mpath = os.path.join(d, '%s__mustfail%d.rs' % (u.name, gi))
                 open(mpath, 'w').write(gm.text)
                 jobs['mustfail:%d' % gi] = ex.submit(run_verus, mpath, rlimit)
@@ -285,7 +288,7 @@ def run_unit(unit_dir, tier, seed, scratch, variants=True):
         vg = {}
         for v in vnames:
             try:
-                gv = gen.generate(unit_dir, variant=v)
+                gv = gen.generate(unit_dir, variant=v, auto_stubs=auto_stubs)
                 vpath = os.path.join(d, '%s__%s.rs' % (u.name, v))
                 open(vpath, 'w').write(gv.text)
                 vg[v] = gv
@@ -299,7 +302,7 @@ def run_unit(unit_dir, tier, seed, scratch, variants=True):
             if os.path.exists(mfile):
                 for mu in json.load(open(mfile)):
                     try:
-                        gmu = gen.generate(unit_dir, mutate=(mu['fn'], mu['find'], mu['replace']), variant=mu.get('variant'))
+                        gmu = gen.generate(unit_dir, mutate=(mu['fn'], mu['find'], mu['replace']), variant=mu.get('variant'), auto_stubs=auto_stubs)
                     except ExtractError as e:
                         u.mutants.append(dict(name=mu['name'], result='not-applicable', why=str(e)))
                         continue
@@ -315,6 +318,7 @@ def run_unit(unit_dir, tier, seed, scratch, variants=True):
 
     # ---- main run
     main = results['main']
+    u.main_res = main
     u.cmds.append(main['cmd'])
     absorb(u, g, main, 'main')
     for v in vnames:
@@ -424,6 +428,39 @@ def mustfail_groups(g):
         else:
             groups.append([r.qual])
     return groups
+
+
+def run_unit(unit_dir, tier, seed, scratch):
+    """Run a unit; when the front end reports a callee that the unit does not know (a helper added to
+    the source file), stub it mechanically as a contract-less external_body function and retry: the
+    caller's obligations are then decided against `no contract` (modular verification)."""
+    auto = {}
+    u = None
+    for rnd in range(4):
+        u = _run_unit_once(unit_dir, tier, seed, os.path.join(scratch, 'r%d' % rnd) if rnd else scratch, auto)
+        if u.status != 'undecided' or u.main_res is None or not hasattr(u, 'gen'):
+            break
+        new = gen.unresolved_callees(u.gen, u.main_res['diags'])
+        added = False
+        for ref, st in new:
+            lst = auto.setdefault(ref, [])
+            if not any(x['qual'] == st['qual'] and x['kind'] == st['kind'] for x in lst):
+                lst.append(st)
+                added = True
+        if not added:
+            break
+    u.auto_stubs = sorted({st['qual'] for lst in auto.values() for st in lst}) if auto else []
+    u.auto_map = auto
+    u.confirmed = []
+    if u.status == 'undecided' and u.reason.startswith(('main: front end', 'main: verus front end', 'extraction:', 'generator error')):
+        # the proof could not even be attempted (lost anchor / unsupported construct).  That is never an
+        # alarm by itself; but a concrete failing input found by replaying the extracted real code is.
+        try:
+            import witness
+            u.confirmed = witness.sweep(u, unit_dir, scratch)
+        except Exception as e:
+            u.confirmed = []
+    return u
 
 
 def first_error(r):
@@ -548,6 +585,9 @@ def report(prop, tier, seed, results, extras, wall, rebaseline, replay):
         for kind, name, ln in u.trusted:
             trusted.append('%s: %s %s' % (u.name, kind, name))
         mustfail[u.name] = u.mustfail
+        if getattr(u, 'auto_stubs', None):
+            trusted.append('%s: AUTO-STUBBED callees without contract: %s' % (u.name, ', '.join(u.auto_stubs)))
+            print('NOTE unit=%s callees not known to the unit were stubbed without a contract: %s' % (u.name, ', '.join(u.auto_stubs)))
         if u.mutants:
             mutants.extend(dict(unit=u.name, **m) for m in u.mutants)
         if u.seeds:
@@ -567,6 +607,15 @@ def report(prop, tier, seed, results, extras, wall, rebaseline, replay):
                 undecided.append('%s: %s fails but is not in the baseline of discharged functions' % (u.name, nm))
             else:
                 violations.append((u, f, nm))
+        for c in getattr(u, 'confirmed', []):
+            nm = '%s:%s/%s' % (u.name, c['fn'], c['label'])
+            k = match_known(known, prop, nm, '')
+            if k is not None:
+                known_hits.append((k, nm))
+                kf_obls.append(nm)
+            else:
+                violations.append((None, dict(engine='replay of extracted real code (proof undecided: %s)' % u.reason[:200],
+                                              output=u.reason, witness=c['witness']), nm))
         if u.status == 'undecided':
             undecided.append('%s: %s' % (u.name, u.reason))
         # obligations: verifier-counted verification units (functions / proofs) of the main file and variants
